@@ -12,6 +12,10 @@ static ssize_t sf_read(void *c, char *buf, size_t n) {
   long avail = (f->synth ? f->synth_len : (long)f->data.size()) - f->pos;
   if (avail <= 0 || n == 0) { simsched::io_event(simsched::EV_IO_READ, f->id, 0); return 0; }
   size_t k = n < (size_t)avail ? n : (size_t)avail;
+  if (f->read_err_at >= 0) {
+    if (f->pos >= f->read_err_at) { f->read_errors++; simsched::io_event(simsched::EV_IO_READ, f->id, -1); errno = EIO; return -1; }
+    if (f->pos + (long)k > f->read_err_at) k = (size_t)(f->read_err_at - f->pos);
+  }
   if (f->short_io && k > 1 && f->io_rng.chance(0.3)) { k = 1 + f->io_rng.below(k - 1); f->short_reads++; }
   if (f->synth) { for (size_t q = 0; q < k; q++) buf[q] = (char)SimFile::synth_byte(f->synth_seed, (uint64_t)(f->pos + q)); }
   else memcpy(buf, f->data.data() + f->pos, k);
